@@ -94,7 +94,10 @@ def _plumbing(method):
         v.prove("default_start_is_initial_state", list(x0) == list(c0))
         v.prove("returns_solver_x_and_info", SP.conj([_same_vector(rx, x), SP.iff(sol["success"], success)]))
         v.prove("sanity_of_returned_x_against_same_initial_state", SP.conj([sane == "SANE-FLAG", _same_vector(tag["args"][1], x), list(tag["args"][0]) == list(c0)]))
-        warned = any("failed" in m for _, m in v.events("warning"))
+        # the caller is TOLD (by a warning, in whatever words -- the text is no part of the property and is not matched) exactly when the solver
+        # reports failure. _result_is_sane is replaced by its contract above, which emits nothing, so its own warnings (negative / too much,
+        # decided in harness _result_is_sane) do not count here: every warning event on this path is root's/_solve's own
+        warned = len(v.events("warning")) >= 1
         v.prove("failure_warning_iff_solver_reports_failure", SP.iff(warned, SP.neg(success)))
     return _
 
@@ -200,10 +203,12 @@ def _processors(name):
         NS = getattr(E, name)(es, backend=math)
         n = es.ns
         x = [v.real("x%d" % i, lo=0, hi=100) for i in range(n)]
-        params = [v.real("p%d" % i, lo=0, hi=100) for i in range(n + es.nr)]
+        # chempy (pyneqsys) hands the processors an ndarray of parameters, never a python list; what the property needs is that the VALUES of the
+        # parameters (initial state, constants) reach the equations unchanged -- a copy / np.asarray of them is as good as the object itself
+        params = _arr([v.real("p%d" % i, lo=0, hi=100) for i in range(n + es.nr)])
         y, p1 = v.call(NS.pre_processor, _arr(x), params)
         z, p2 = v.call(NS.post_processor, y, params)
-        v.prove("parameters_passed_through", p1 is params and p2 is params)
+        v.prove("parameters_passed_through", SP.conj([_same_vector(p1, params), _same_vector(p2, params)]))
         if name == "NumSysLog":
             small = E.NumSysLog.small
             for i in range(n):
@@ -224,9 +229,25 @@ def _(v):
     import chempy._eqsys as E
     es = _eqsys()
     c0 = np.array([55.5, 1e-7, 1e-7, 1e-3, 1e-3])
-    v.prove("log_start", E.NumSysLog(es).internal_x0_cb(c0, None) == [0.1] * 5)
-    v.prove("square_start", np.allclose(E.NumSysSquare(es).internal_x0_cb(c0, None) ** 2, c0))
-    v.prove("small_constants", E.NumSysLog.small == math.exp(-36) and E.NumSysSquare.small == 1e-35 and E.NumSysLin.small == 0)
+
+    # every obligation decided on its own: an exception of the code under test (or a container type that compares differently) fails THAT
+    # obligation and leaves the others standing
+    def log_start():
+        # the same start (0.1, in ln c) for each of the 5 species; list, tuple or ndarray alike
+        r = E.NumSysLog(es).internal_x0_cb(c0, None)
+        return len(r) == 5 and bool(np.allclose(np.asarray(r, dtype=float), 0.1, rtol=0, atol=1e-15))
+
+    def square_start():
+        r = np.asarray(E.NumSysSquare(es).internal_x0_cb(c0, None), dtype=float)
+        return r.shape == (5,) and bool(np.allclose(r ** 2, c0))
+
+    def small_constants():
+        return bool(E.NumSysLog.small == math.exp(-36) and E.NumSysSquare.small == 1e-35 and E.NumSysLin.small == 0)
+    for name, cond in [("log_start", log_start), ("square_start", square_start), ("small_constants", small_constants)]:
+        try:
+            v.prove(name, cond())
+        except Exception as e:
+            v.prove(name, False, detail="%s: %s" % (type(e).__name__, e))
 
 
 def _rc(n_species):
